@@ -126,6 +126,12 @@ class World:
         self.history.append(step)
         op = step["op"]
         getattr(self, "op_" + op.replace("-", "_"))(step)
+        # no step may change any *other* object of the pool (aliasing between copies, subsets, fragments, supercells)
+        for i, o in enumerate(self.pool):
+            what = "object %d (not involved in the step %r)" % (i, op)
+            got = M.resolve(o.real, what)
+            M.compare_atoms(got["atoms"], o.model["atoms"], what, pos_tol=1e-9, ordered=True)
+            M.compare_terms(got["terms"], o.model["terms"], what, untyped_by_class=True)
 
     def op_construct(self, step):
         spec = step["spec"]
